@@ -7,6 +7,9 @@ Tie, on every run:
   lit  real expression parser literal values   vs IntRange.parserValue  (single literals)
   asg  real assignability_check/type_meet/is_the_same_type vs Assign.*  (type pairs)
   slv  real solve_type_constraints             vs Assign.solveTypeConstraints
+  join Lean model of the branch-join rule (ifChainOk / matchArmsOk) vs the real checker on programs
+       with a wrongly typed branch at every position of if / else-if / if-let chains (2..5) and
+       match arms (2, 3, 5), in constrained and unconstrained contexts
 Direct implementation-side oracles (no model): literal range spec on token streams and parsed
 expressions; "assignable iff equal up to any-holes" on type pairs; instance-of on solved
 constraints; and the property itself on whole programs: every guaranteed-ill-typed single-edit
@@ -1156,13 +1159,13 @@ def run(ctx):
         "samples": samples_out,
         "traces_validated_against_impl": stats["tok"] + stats["lit"] + stats["asg"] + stats["slv"],
         "counters": stats, "mutant_kind_histogram": hist, "error_kind_histogram": errkinds,
-        "partial_theorems": {
-            "int_range_exact_partial": "side condition: the literal is not 2^31, or is the first token, or directly follows '-'",
-            "accepted_literals_faithful_partial": "side condition Guarded: every literal 2^31 is the first token or directly follows '-'"},
-        "counterexample_theorems": ["int_range_exact_counterexample", "accepted_literals_faithful_counterexample"],
-        "pending": ["solve_sound (no error => concrete is an instance of generic) is checked by the slv oracle only",
-                    "assignable_iff_consistent (existence of a common any-free refinement) stated in the oracle only",
-                    "visibility / name-resolution / exhaustiveness models: mutant oracle only"]})
+        "partial_theorems": {},
+        "counterexample_theorems": [],
+        "fixed_findings": ["C06-F1 (d5c9a21): int_range_exact / accepted_literals_faithful now full strength",
+                           "C06-F2 (db690ec): if condition checked against bool"],
+        "pending": ["visibility / name-resolution / interface-conformance / exhaustiveness models: mutant oracle only",
+                    "the inference engine that decides where `any` placeholders arise (hints, lambdas) is not modelled",
+                    "solve_sound is proved for any-free concrete types; with placeholders inside the concrete type only the slv oracle applies"]})
     ctx.assumptions += ["valid UTF-8 sources", "integer literal text matches the lexer regex 0|[1-9][0-9]* (checked by the tok correspondence)",
                         "reasons/locations are not part of a type's identity (dropped in Model/Assign.lean)"]
     return ctx.finish(res, trusted=common.TRUSTED_COMMON + [
